@@ -239,12 +239,28 @@ var ctxClasses = classdef.Table{GA: 1, GB: 2}
 // format 1..3; 3..5: chained format 1..3).  For the non-chained forms the
 // backtrack/lookahead parts of the pattern are dropped.
 func Context(form int, p Pattern, actions []gtab.SeqLookup) gtab.Subtable {
-	cls := func(gs []glyph.ID) []uint16 {
+	return ContextClasses(form, p, actions, ctxClasses, ctxClasses, ctxClasses)
+}
+
+// AltClasses are class tables that differ from the default ones (and from
+// each other), for lookups with several class-based subtables.
+var AltClasses = [3]classdef.Table{{GB: 1, GA: 2}, {GA: 1, GB: 2, GC: 3}, {GA: 2, GB: 1, GM: 3}}
+
+// ContextClasses is Context with explicit backtrack, input and lookahead class tables for the class-based forms.
+func ContextClasses(form int, p Pattern, actions []gtab.SeqLookup, back, input, look classdef.Table) gtab.Subtable {
+	cls := func(t classdef.Table, gs []glyph.ID) []uint16 {
 		var out []uint16
 		for _, g := range gs {
-			out = append(out, classOf(g))
+			out = append(out, t[g])
 		}
 		return out
+	}
+	numClasses := func(t classdef.Table) int {
+		n := 0
+		for _, c := range t {
+			n = max(n, int(c))
+		}
+		return n + 1
 	}
 	sets := func(gs []glyph.ID) []coverage.Set {
 		var out []coverage.Set
@@ -258,17 +274,17 @@ func Context(form int, p Pattern, actions []gtab.SeqLookup) gtab.Subtable {
 	case 0:
 		return &gtab.SeqContext1{Cov: cov(first), Rules: [][]*gtab.SeqRule{{{Input: p.Input[1:], Actions: actions}}}}
 	case 1:
-		rules := make([][]*gtab.ClassSeqRule, 3)
-		rules[classOf(first)] = []*gtab.ClassSeqRule{{Input: cls(p.Input[1:]), Actions: actions}}
-		return &gtab.SeqContext2{Cov: cov(first), Input: ctxClasses, Rules: rules}
+		rules := make([][]*gtab.ClassSeqRule, numClasses(input))
+		rules[input[first]] = []*gtab.ClassSeqRule{{Input: cls(input, p.Input[1:]), Actions: actions}}
+		return &gtab.SeqContext2{Cov: cov(first), Input: input, Rules: rules}
 	case 2:
 		return &gtab.SeqContext3{Input: sets(p.Input), Actions: actions}
 	case 3:
 		return &gtab.ChainedSeqContext1{Cov: cov(first), Rules: [][]*gtab.ChainedSeqRule{{{Backtrack: p.Backtrack, Input: p.Input[1:], Lookahead: p.Lookahead, Actions: actions}}}}
 	case 4:
-		rules := make([][]*gtab.ChainedClassSeqRule, 3)
-		rules[classOf(first)] = []*gtab.ChainedClassSeqRule{{Backtrack: cls(p.Backtrack), Input: cls(p.Input[1:]), Lookahead: cls(p.Lookahead), Actions: actions}}
-		return &gtab.ChainedSeqContext2{Cov: cov(first), Backtrack: ctxClasses, Input: ctxClasses, Lookahead: ctxClasses, Rules: rules}
+		rules := make([][]*gtab.ChainedClassSeqRule, numClasses(input))
+		rules[input[first]] = []*gtab.ChainedClassSeqRule{{Backtrack: cls(back, p.Backtrack), Input: cls(input, p.Input[1:]), Lookahead: cls(look, p.Lookahead), Actions: actions}}
+		return &gtab.ChainedSeqContext2{Cov: cov(first), Backtrack: back, Input: input, Lookahead: look, Rules: rules}
 	default:
 		return &gtab.ChainedSeqContext3{Backtrack: sets(p.Backtrack), Input: sets(p.Input), Lookahead: sets(p.Lookahead), Actions: actions}
 	}
